@@ -422,6 +422,66 @@ func vfC14StartCase(t *testing.T, s *vfutil.Session, tagp *int, mode string, ids
 			s.Count("restart_checked")
 		}
 	}
+	// faults on the start path: each write request of this start fails in turn (transient error reply).
+	// The start may fail (it is retried) but (1) a point it does return is the one selected without the fault,
+	// (2) a fresh start on what it left behind still resumes at or after it, (3) if the numbering restarts
+	// (point with sequence 0) a unit committed later under the new numbering without its predecessors
+	// must not move the resume point: whatever older recovery state survived the failed request is not combined with it.
+	if isPoint && src != "chain" {
+		for fi, w := range ws {
+			if fi >= 8 {
+				break
+			}
+			tf := vfdoubles.NewTarget()
+			ns.seed(tf)
+			tf.FailAt[w] = "ERR vf injected"
+			startF, offF, okF := vfC14Start(tf, mode, ids)
+			tf.CloseAll()
+			logF := tf.LogCopy()
+			s.Count("start_fault_cases")
+			repF := map[string]interface{}{"op": op, "start": start, "failed_request": fi + 1, "request": lines[fi], "start_with_fault": startF}
+			if okF && startF != start {
+				s.Violate("start-fault-changes-resume-point", fmt.Sprintf("start resumes at %s; with request #%d (%s) failing it resumes at %s", start, fi+1, lines[fi], startF), repF)
+				break
+			}
+			if okF {
+				s.Count("start_fault_survived")
+			}
+			after := vfdoubles.ReplayFaults(logF, 0, false, map[int]string{w: "ERR vf injected"})
+			nsF := vfC14Dump(after, ids)
+			nx, nxOff, nxOk := vfC14Start(after, mode, ids)
+			after.CloseAll()
+			if !nxOk || nxOff < off {
+				repF["next"] = nx
+				s.Violate("start-fault-then-restart-moves-backwards", fmt.Sprintf("start resumes at %s; request #%d (%s) failed; the next start: %s", start, fi+1, lines[fi], nx), repF)
+				break
+			}
+			if okF && m == "F" && strings.HasSuffix(startF, ":0") {
+				// numbering restarted although the failed request left older state: unit K commits, 1..K-1 do not
+				k := int64(2)
+				if nsF.front != nil && nsF.front.UnitSeq >= 1 {
+					k = nsF.front.UnitSeq + 1
+				}
+				rid := strings.Split(startF, ":")[1]
+				rec := &checkpoint.BisyncCommitRecord{RunID: string(vfutil.UnHex(rid)), Version: config.Version, SyncerID: "vf", UnitSeq: k, StartOffset: offF + (k-1)*100, EndOffset: offF + k*100, MTime: 5, Digest: "d"}
+				t2 := vfdoubles.ReplayFaults(logF, 0, false, map[int]string{w: "ERR vf injected"})
+				rr := *rec
+				rr.Key = vfC14CommitKey(k)
+				t2.Seed(0, vfArgs(rr.Key, rr.HashArgs())...)
+				t2.Seed(0, "zadd", vfC14IndexKey(), strconv.FormatInt(k, 10), rr.Key)
+				n2, n2Off, n2Ok := vfC14Start(t2, mode, ids)
+				t2.CloseAll()
+				s.Count("start_fault_renumber_checked")
+				if !n2Ok || n2Off != offF {
+					repF["committed_unit"] = k
+					repF["next"] = n2
+					s.Violate("start-fault-renumber-skips-unit", fmt.Sprintf("request #%d (%s) of the start failed, the start resumed at %s (numbering restarts); then unit %d committed (units 1..%d not) and the process stopped: the next start resumes at %s, not at %d",
+						fi+1, lines[fi], startF, k, k-1, n2, offF), repF)
+					break
+				}
+			}
+		}
+	}
 	// chain: restart from a crash point of this start (its own line in the protocol)
 	if depth > 0 && isPoint {
 		k := len(log)
@@ -603,7 +663,9 @@ func vfC14CoordCase(t *testing.T, s *vfutil.Session, tag int, rid string, seq0, 
 		tg.CloseAll()
 		synctest.Wait()
 	})
-	op := fmt.Sprintf("c14c %d %s %s %d %d %d %s", tag, vfutil.HexS(config.Version), vfutil.HexS(rid), seq0, off0, t0, strings.Join(evStr, ";"))
+	// the flush policy is a tuning parameter: the model takes the values the code has
+	op := fmt.Sprintf("c14c %d %s %s %d %d %d %d %d %s", tag, vfutil.HexS(config.Version), vfutil.HexS(rid), seq0, off0, t0,
+		bisyncFrontierFlushUnitThreshold, int64(bisyncFrontierFlushInterval), strings.Join(evStr, ";"))
 	s.Op(op, lines...)
 	s.Count("coord_" + src)
 	s.Add("coord_events", len(evs))
@@ -629,8 +691,8 @@ func vfC14GenCoord(r *vfutil.Rand) (string, int64, int64, []vfCEv) {
 	seq0 := int64(r.Range(0, 20))
 	off0 := 5000 + seq0*10
 	n := r.Range(1, 14)
-	if r.Chance(1, 40) { // the 512-unit flush threshold: many completions within one flush interval
-		n = r.Range(510, 530)
+	if r.Chance(1, 40) { // the unit-count flush threshold (512): many completions within one flush interval
+		n = r.Range(bisyncFrontierFlushUnitThreshold-2, bisyncFrontierFlushUnitThreshold+18)
 		var evs []vfCEv
 		for q := seq0 + 1; q <= seq0+int64(n); q++ {
 			rec := &checkpoint.BisyncCommitRecord{Key: vfC14CommitKey(q), RecordType: "commit", Version: config.Version, RunID: rid,
